@@ -40,6 +40,9 @@ type c11Case struct {
 	ProxyURL string      `json:"proxyURL"`
 	Monitor  bool        `json:"monitor"`
 	Reorder  bool        `json:"reorder"` // UpdateTargets before ApplyConfig
+	// FollowUp: after the first generation the configuration is reloaded with a second text:
+	// "" none | "ext" only external labels differ | "edit:<catalogue entry>"
+	FollowUp string `json:"followUp,omitempty"`
 }
 
 func recC11() *vkit.Recorder {
@@ -56,25 +59,28 @@ func secretsOfJob(j *Job) []string {
 }
 
 func runC11(rec *vkit.Recorder, c *c11Case) []vkit.Violation {
-	var vs []vkit.Violation
+	vs := runC11Phase(rec, c, c.Spec, nil)
+	return vs
+}
+
+// c11State carries the injector and config manager across reloads of one case.
+type c11State struct {
+	cm  *prom.ConfigManager
+	inj *sidecar.Injector
+	out string
+	dir string
+}
+
+func runC11Phase(rec *vkit.Recorder, c *c11Case, spec *Spec, st *c11State) (vs []vkit.Violation) {
 	add := func(key, f string, a ...interface{}) {
 		vs = append(vs, vkit.Violation{Key: key, Msg: fmt.Sprintf(f, a...)})
 	}
-	text := c.Spec.Text(c.Style)
-	cm := prom.NewConfigManager()
-	if err := cm.ReloadFromRaw([]byte(text)); err != nil {
+	text := spec.Text(c.Style)
+	orig, err := config.Load(text, false, log.NewNopLogger())
+	if err != nil {
 		rec.Class("config-rejected")
 		return nil
 	}
-	info := cm.ConfigInfo()
-	orig, err := config.Load(text, false, log.NewNopLogger())
-	if err != nil {
-		return nil
-	}
-	dir, _ := ioutil.TempDir("", "c11-")
-	defer os.RemoveAll(dir)
-	out := filepath.Join(dir, "out.yaml")
-	inj := sidecar.NewInjector(out, sidecar.InjectConfigOptions{ProxyURL: c.ProxyURL, PrometheusURL: "http://127.0.0.1:9090", ShardMonitorEnable: c.Monitor}, prometheus.NewRegistry(), quiet)
 	assign := map[string][]*target.Target{}
 	for _, t := range c.Targets {
 		sch := "http"
@@ -87,39 +93,86 @@ func runC11(rec *vkit.Recorder, c *c11Case) []vkit.Violation {
 		}
 		assign[t.Job] = append(assign[t.Job], &target.Target{Hash: t.Hash, Labels: ls})
 	}
-	// before the first real configuration the file is the placeholder
-	if err := inj.UpdateTargets(map[string][]*target.Target{}); err != nil {
-		add("C11/placeholder-write-fails", "%v", err)
-		return vs
-	}
-	if data, err := ioutil.ReadFile(out); err != nil {
-		add("C11/placeholder-missing", "%v", err)
-	} else if _, err := config.Load(string(data), false, log.NewNopLogger()); err != nil {
-		add("C11/placeholder-invalid", "placeholder file is not a valid configuration: %v", err)
-	}
-	if c.Reorder {
-		_ = inj.UpdateTargets(assign)
-		err = inj.ApplyConfig(info)
-	} else {
-		if err = inj.ApplyConfig(info); err == nil {
-			err = inj.UpdateTargets(assign)
+	first := st == nil
+	if first {
+		dir, _ := ioutil.TempDir("", "c11-")
+		defer os.RemoveAll(dir)
+		st = &c11State{cm: prom.NewConfigManager(), dir: dir, out: filepath.Join(dir, "out.yaml")}
+		st.inj = sidecar.NewInjector(st.out, sidecar.InjectConfigOptions{ProxyURL: c.ProxyURL, PrometheusURL: "http://127.0.0.1:9090", ShardMonitorEnable: c.Monitor}, prometheus.NewRegistry(), quiet)
+		// wired as in cmd/kvass/sidecar.go: the injector regenerates on every config reload
+		st.cm.AddReloadCallbacks(st.inj.ApplyConfig)
+		// before the first real configuration the file is the placeholder
+		if err := st.inj.UpdateTargets(map[string][]*target.Target{}); err != nil {
+			add("C11/placeholder-write-fails", "%v", err)
+			return vs
 		}
+		if data, err := ioutil.ReadFile(st.out); err != nil {
+			add("C11/placeholder-missing", "%v", err)
+		} else if _, err := config.Load(string(data), false, log.NewNopLogger()); err != nil {
+			add("C11/placeholder-invalid", "placeholder file is not a valid configuration: %v", err)
+		}
+		if c.Reorder {
+			_ = st.inj.UpdateTargets(assign)
+			err = st.cm.ReloadFromRaw([]byte(text))
+		} else {
+			if err = st.cm.ReloadFromRaw([]byte(text)); err == nil {
+				err = st.inj.UpdateTargets(assign)
+			}
+		}
+	} else {
+		err = st.cm.ReloadFromRaw([]byte(text))
 	}
 	if err != nil {
 		add("C11/inject-fails", "injector failed on an accepted configuration: %v", err)
 		return vs
+	}
+	out := st.out
+	if first && c.FollowUp != "" {
+		// judge the first generation, then reload with the follow-up configuration and judge again
+		defer func() {
+			if len(vs) > 0 {
+				return
+			}
+			spec2 := spec.Clone()
+			switch {
+			case c.FollowUp == "ext":
+				applyExt(spec2, "change")
+			case strings.HasPrefix(c.FollowUp, "edit:"):
+				for _, e := range Catalogue() {
+					if e.Name == strings.TrimPrefix(c.FollowUp, "edit:") {
+						ok := func() (ok bool) {
+							defer func() {
+								if recover() != nil {
+									ok = false
+								}
+							}()
+							return e.Apply(spec2, nil)
+						}()
+						if !ok {
+							return
+						}
+					}
+				}
+			}
+			rec.Class("follow-up-reload/" + strings.SplitN(c.FollowUp, ":", 2)[0])
+			more := runC11Phase(rec, c, spec2, st)
+			for i := range more {
+				more[i].Key = strings.Replace(more[i].Key, "C11/", "C11/after-reload/", 1)
+			}
+			vs = append(vs, more...)
+		}()
 	}
 	data, _ := ioutil.ReadFile(out)
 	gen, err := config.Load(string(data), false, log.NewNopLogger())
 	if err != nil {
 		k := "C11/generated-file-invalid"
 		nsec := 0
-		for _, r := range c.Spec.RemoteWrite {
+		for _, r := range spec.RemoteWrite {
 			if r.Auth.Kind != "" {
 				nsec++
 			}
 		}
-		for _, r := range c.Spec.RemoteRead {
+		for _, r := range spec.RemoteRead {
 			if r.Auth.Kind != "" {
 				nsec++
 			}
@@ -236,10 +289,10 @@ func runC11(rec *vkit.Recorder, c *c11Case) []vkit.Violation {
 		}
 	}
 	// ---- no job secret anywhere in the text
-	for i := range c.Spec.Jobs {
-		for _, sec := range secretsOfJob(&c.Spec.Jobs[i]) {
+	for i := range spec.Jobs {
+		for _, sec := range secretsOfJob(&spec.Jobs[i]) {
 			if strings.Contains(string(data), sec) {
-				add("C11/job-secret-in-file/"+c.Spec.Jobs[i].Auth.Kind, "secret %q of job %q appears in the generated file", sec, c.Spec.Jobs[i].Name)
+				add("C11/job-secret-in-file/"+spec.Jobs[i].Auth.Kind, "secret %q of job %q appears in the generated file", sec, spec.Jobs[i].Name)
 			}
 		}
 	}
@@ -255,10 +308,10 @@ func runC11(rec *vkit.Recorder, c *c11Case) []vkit.Violation {
 	}
 	if !reflect.DeepEqual(orig.AlertingConfig, gen.AlertingConfig) {
 		k := "C11/alerting-changed"
-		for i := range c.Spec.AMs {
-			if c.Spec.AMs[i].Auth.Kind != "" && i < len(gen.AlertingConfig.AlertmanagerConfigs) && i < len(orig.AlertingConfig.AlertmanagerConfigs) &&
+		for i := range spec.AMs {
+			if spec.AMs[i].Auth.Kind != "" && i < len(gen.AlertingConfig.AlertmanagerConfigs) && i < len(orig.AlertingConfig.AlertmanagerConfigs) &&
 				!reflect.DeepEqual(orig.AlertingConfig.AlertmanagerConfigs[i].HTTPClientConfig, gen.AlertingConfig.AlertmanagerConfigs[i].HTTPClientConfig) {
-				k = "C11/secret-lost/" + secretKey("alerting", &c.Spec.AMs[i].Auth)
+				k = "C11/secret-lost/" + secretKey("alerting", &spec.AMs[i].Auth)
 			}
 		}
 		add(k, "alerting section differs")
@@ -282,36 +335,36 @@ func runC11(rec *vkit.Recorder, c *c11Case) []vkit.Violation {
 	} else {
 		cmpRemote("remote_write", len(orig.RemoteWriteConfigs), func(cfg *config.Config, i int) (interface{}, config_util.HTTPClientConfig) {
 			return cfg.RemoteWriteConfigs[i], cfg.RemoteWriteConfigs[i].HTTPClientConfig
-		}, c.Spec.RemoteWrite)
+		}, spec.RemoteWrite)
 	}
 	if len(orig.RemoteReadConfigs) != len(gen.RemoteReadConfigs) {
 		add("C11/remote_read-changed", "%d vs %d entries", len(orig.RemoteReadConfigs), len(gen.RemoteReadConfigs))
 	} else {
 		cmpRemote("remote_read", len(orig.RemoteReadConfigs), func(cfg *config.Config, i int) (interface{}, config_util.HTTPClientConfig) {
 			return cfg.RemoteReadConfigs[i], cfg.RemoteReadConfigs[i].HTTPClientConfig
-		}, c.Spec.RemoteRead)
+		}, spec.RemoteRead)
 	}
 
 	// ---- evidence
 	sections := map[string]bool{}
 	jobCred := false
-	for i := range c.Spec.Jobs {
-		if c.Spec.Jobs[i].Auth.Kind != "" {
+	for i := range spec.Jobs {
+		if spec.Jobs[i].Auth.Kind != "" {
 			sections["job"] = true
 			jobCred = true
 		}
 	}
-	for _, r := range c.Spec.RemoteWrite {
+	for _, r := range spec.RemoteWrite {
 		if r.Auth.Kind != "" {
 			sections["remote_write"] = true
 		}
 	}
-	for _, r := range c.Spec.RemoteRead {
+	for _, r := range spec.RemoteRead {
 		if r.Auth.Kind != "" {
 			sections["remote_read"] = true
 		}
 	}
-	for _, a := range c.Spec.AMs {
+	for _, a := range spec.AMs {
 		if a.Auth.Kind != "" {
 			sections["alerting"] = true
 		}
@@ -319,7 +372,7 @@ func runC11(rec *vkit.Recorder, c *c11Case) []vkit.Violation {
 	var cls []string
 	unknownJob, emptyJob := false, false
 	names := map[string]bool{}
-	for _, j := range c.Spec.Jobs {
+	for _, j := range spec.Jobs {
 		names[j.Name] = true
 		if len(assign[j.Name]) == 0 {
 			emptyJob = true
@@ -361,6 +414,13 @@ func genC11(t *rapid.T) *c11Case {
 			c.Targets = append(c.Targets, c11Target{Job: j.Name, Hash: h * 2654435761, Addr: fmt.Sprintf("10.1.%d.%d:9100", len(c.Targets), k),
 				HTTPS: rapid.Bool().Draw(t, fmt.Sprintf("https-%d", h)), Extra: rapid.SampledFrom([]string{"", "x", "a: b", "quo\"te"}).Draw(t, fmt.Sprintf("extra-%d", h))})
 		}
+	}
+	switch rapid.IntRange(0, 3).Draw(t, "followUp") {
+	case 1:
+		c.FollowUp = "ext"
+	case 2:
+		cat := Catalogue()
+		c.FollowUp = "edit:" + cat[rapid.IntRange(0, len(cat)-1).Draw(t, "followUpEdit")].Name
 	}
 	if rapid.IntRange(0, 3).Draw(t, "ghostJob") == 0 {
 		c.Targets = append(c.Targets, c11Target{Job: "job-that-no-longer-exists", Hash: 77, Addr: "10.9.9.9:1"})
